@@ -9,7 +9,7 @@ LEVEL = "model_checking"
 GOOD = {"UnlockAt": "persisted", "RefRelease": "persisted", "SeqAtomic": True, "DryRunAllocates": False,
         "DryRunPublishes": False, "RevertEventSwapped": False, "MetaSourceLocked": True,
         "AckWaitsPersist": True, "IkSpan": "run", "RevertGuard": True, "MetaLogsCarryIk": True,
-        "CancelAbortsWait": False, "ReplayFromRequest": False}
+        "CancelAbortsWait": False, "ReplayFromRequest": False, "SeedTx": True, "LookupErrorIgnored": False}
 
 SPEC_INVS = ("TypeOK LocksConsistent QuiescentClean C02_SerialFunds C05_IdsGapFree C05_TxIdsSequential C06_AckPersisted "
              "C06_RejectedLeavesNothing C06_OneEntryPerRequest C07_IkOnce C10_RevertOnce C11_RefOnce C14_DryRun "
@@ -17,18 +17,19 @@ SPEC_INVS = ("TypeOK LocksConsistent QuiescentClean C02_SerialFunds C05_IdsGapFr
 
 # per property: palettes (name, MaxCrash), negative designs (switch, bad value, palette, MaxCrash), deciding invariants
 PROPS = {
-    "C02": dict(palettes=[("PalFunds", 0)],
+    "C02": dict(palettes=[("PalFunds", 0), ("PalCache", 0)],
                 negatives=[("UnlockAt", "early", "PalFunds", 0), ("MetaSourceLocked", False, "PalFunds", 0),
-                           ("CancelAbortsWait", True, "PalFunds", 0)],
+                           ("CancelAbortsWait", True, "PalFunds", 0), ("UnlockAt", "early", "PalCache", 0)],
                 invs=["C02_SerialFunds"]),
-    "C05": dict(palettes=[("PalKinds", 0), ("PalRestart", 1), ("PalDry", 0)],
+    "C05": dict(palettes=[("PalKinds", 0), ("PalRestart", 1), ("PalDry", 0), ("PalMetaOnly", 1)],
                 negatives=[("SeqAtomic", False, "PalKinds", 0), ("DryRunAllocates", True, "PalDry", 0)],
                 invs=["C05_IdsGapFree", "C05_TxIdsSequential", "C05_HashChain"]),
     "C06": dict(palettes=[("PalRestart", 1), ("PalRef", 0), ("PalIk", 0)],
                 negatives=[("AckWaitsPersist", False, "PalRestart", 1), ("CancelAbortsWait", True, "PalRestart", 0)],
                 invs=["C06_AckPersisted", "C06_RejectedLeavesNothing", "C06_OneEntryPerRequest"]),
-    "C07": dict(palettes=[("PalIk", 1)],
-                negatives=[("IkSpan", "exec", "PalIk", 0), ("MetaLogsCarryIk", False, "PalIk", 0), ("ReplayFromRequest", True, "PalIk", 0)],
+    "C07": dict(palettes=[("PalIk", 1), ("PalIkRead", 1)],
+                negatives=[("IkSpan", "exec", "PalIk", 0), ("MetaLogsCarryIk", False, "PalIk", 0), ("ReplayFromRequest", True, "PalIk", 0),
+                           ("LookupErrorIgnored", True, "PalIkRead", 0)],
                 invs=["C07_IkOnce", "C06_AckPersisted"]),
     "C10": dict(palettes=[("PalRevert", 0)],
                 negatives=[("RevertGuard", False, "PalRevert", 0)],
@@ -61,9 +62,11 @@ def tla(v):
 
 
 def cfg(spec, palette, nprocs, design, invs, maxcrash, extra=""):
+    if palette.startswith("PalMetaOnly"):
+        design = dict(design, SeedTx=False)   # this palette is about a ledger that holds no transaction yet
     return "SPECIFICATION %s\nCONSTANTS\n  Procs = {%s}\n  Palette <- %s\n%s  MaxCrash = %d\n%s%s\nCHECK_DEADLOCK FALSE\n" % (
         spec, ", ".join('"p%d"' % i for i in range(1, nprocs + 1)), palette,
-        "".join("  %s = %s\n" % (k, tla(v)) for k, v in design.items()) + "  MaxCancel = 1\n", maxcrash, extra,
+        "".join("  %s = %s\n" % (k, tla(v)) for k, v in design.items()) + "  MaxCancel = 1\n  MaxReadFail = %d\n" % (1 if palette.startswith("PalIkRead") else 0), maxcrash, extra,
         ("INVARIANTS " + " ".join(invs)) if invs else "")
 
 
@@ -73,7 +76,7 @@ def obs_cfg(trace, invs):
 
 
 def trace_cfg(trace, design):
-    return "SPECIFICATION TraceSpec\nCONSTANTS\n  Procs = {\"p1\", \"p2\", \"p3\"}\n  Palette <- PalFunds\n%s  MaxCancel = 9\n  MaxCrash = 9\n  TraceFile = \"%s\"\nCHECK_DEADLOCK TRUE\n" % (
+    return "SPECIFICATION TraceSpec\nCONSTANTS\n  Procs = {\"p1\", \"p2\", \"p3\"}\n  Palette <- PalFunds\n%s  MaxCancel = 9\n  MaxReadFail = 9\n  MaxCrash = 9\n  TraceFile = \"%s\"\nCHECK_DEADLOCK TRUE\n" % (
         "".join("  %s = %s\n" % (k, tla(v)) for k, v in design.items()), trace)
 
 
@@ -238,12 +241,12 @@ def run_prop(ctx, prop):
         design = dict(GOOD)
         design[sw] = bad
         for n in (2, 3):
-            cex = ctx.path("cex-%s-%d.json" % (sw, n))
+            cex = ctx.path("cex-%s-%s-%d.json" % (sw, pal, n))
             extra = '  OutDir = "%s"\n  MaxLen = 200\nVIEW GenView\n' % bdir
-            r = ctx.tlc("EngineGen", cfg("AttackSpec", pal, n, design, spec_invs, crash, extra), "neg-%s-%d" % (sw, n),
+            r = ctx.tlc("EngineGen", cfg("AttackSpec", pal, n, design, spec_invs, crash, extra), "neg-%s-%s-%d" % (sw, pal, n),
                         workers=2, timeout=1800, extra=["-dumpTrace", "json", cex])
             if r["status"] == "invariant":
-                cex_to_behaviour(cex, design, os.path.join(bdir, "attack-%s-%d.ndjson" % (sw, n)))
+                cex_to_behaviour(cex, design, os.path.join(bdir, "attack-%s-%s-%d.ndjson" % (sw, pal, n)))
                 return "%s=%s/%s/%d:%s" % (sw, bad, pal, n, r["invariant"])
         raise Infra("negative design %s=%s was not rejected by %s (vacuity guard)" % (sw, bad, spec_invs))
     negs = [pool.submit(attack, *neg) for neg in P["negatives"]]
